@@ -9,7 +9,7 @@ def hash_tree(repo):
     for d, dirs, fs in os.walk(repo):
         dirs[:] = [x for x in dirs if not x.startswith(".")]
         for f in fs:
-            if f.endswith(".go") and not f.endswith("_test.go") and f != "verif_export.go":
+            if f.endswith(".go") and not f.endswith("_test.go") and not f.endswith("verif_export.go"):
                 p = os.path.join(d, f)
                 out[os.path.relpath(p, repo)] = hashlib.sha256(open(p, "rb").read()).hexdigest()
     return out
